@@ -15,6 +15,7 @@ import (
 	govtypes "github.com/KiraCore/sekai/x/gov/types"
 	mstypes "github.com/KiraCore/sekai/x/multistaking/types"
 	spendingtypes "github.com/KiraCore/sekai/x/spending/types"
+	stakingtypes "github.com/KiraCore/sekai/x/staking/types"
 	sdk "github.com/cosmos/cosmos-sdk/types"
 	banktypes "github.com/cosmos/cosmos-sdk/x/bank/types"
 )
@@ -171,6 +172,23 @@ func RunProbes(a, b *abci.Chain, f Features) []Probe {
 			}
 		}
 		return fmt.Sprint(n)
+	})
+	// the unjail proposal handler for every jailed validator (state is not kept: cache context)
+	both("handler:unjail-jailed-validators", func(c *abci.Chain) string {
+		var xs []string
+		for _, v := range c.App.CustomStakingKeeper.GetValidatorSet(ctxOf(c)) {
+			if !v.IsJailed() {
+				continue
+			}
+			cc, _ := ctxOf(c).CacheContext()
+			err := c.App.CustomGovKeeper.GetProposalRouter().ApplyProposal(cc, 0, stakingtypes.NewUnjailValidatorProposal(A(c, 0), v.ValKey, "ref"), sdk.ZeroDec())
+			if err != nil {
+				xs = append(xs, "rejected")
+			} else {
+				xs = append(xs, "ok")
+			}
+		}
+		return strings.Join(xs, ",")
 	})
 	// block 1 after the export: ordinary traffic
 	both("block+1:begin", func(c *abci.Chain) string {
